@@ -96,7 +96,7 @@ theorem cexG_ok : GraphOK cexG := by
   intro t ht
   simp only [cexG, List.mem_singleton] at ht
   subst ht
-  refine ⟨by decide, by decide, by decide, by decide, by decide, by decide, by decide, by decide⟩
+  refine ⟨by decide, by decide, by decide, by decide, by decide, by decide, by decide⟩
 
 theorem graphOK_not_sufficient :
     ∃ g, GraphOK g ∧ ∀ g', replayRaw (compactEvents g) = .ok g' → ¬ ObsEq g' g := by
